@@ -88,7 +88,13 @@ class HostPool(object):
                     connection = self._connection_factory()
                     break
                 else:
-                    yield from self._condition.wait()
+                    try:
+                        yield from self._condition.wait()
+                    except asyncio.CancelledError:
+                        # This waiter may already have been woken up for a
+                        # free connection. Hand the wake-up to another one.
+                        self._condition.notify()
+                        raise
 
             self.busy.add(connection)
         finally:
